@@ -8,7 +8,21 @@ from props.base import to_request, corpus_for  # noqa: F401
 
 ID = 'C01'
 LEAN_MODULES = ['PybtexModel.Props.C01']
-THEOREMS = {}
+THEOREMS = {
+    'C01_value_roundtrip': 'value spellings: a well-formed value rendered with any mix of braced / quoted / bare-number literals, any case mask on macro names and any white space around "#", followed by white space and a non-extending character, is read back by parse_value as its expanded pieces (macros looked up case-insensitively); exactly the rendering is consumed, nothing is reported',
+    'C01_field_roundtrip': 'a rendered field "ws name ws = ws value ws" is read back as the name as written plus the expanded pieces',
+    'C01_entry_roundtrip': 'a rendered entry (either delimiter pair, any layout of key, fields, trailing comma) is read back by parse_command as (type as written, key, fields as written with expanded pieces, in source order); exactly the rendering is consumed, nothing is reported',
+    'C01_string_roundtrip': '@string: the macro table is updated under the written name with the expansion of the value and then agrees with the reference table on every lookup',
+    'C01_preamble_roundtrip': '@preamble: the expanded pieces of the value are returned',
+    'C01_comment_skipped': '@comment: skipped right behind the opening delimiter; its @-free text is passed over as junk',
+    'C01_faithful': 'reading render(d, L) of a well-formed abstract document under any layout raises nothing, reports nothing and yields exactly the database the document denotes (entries with key, type, fields in source order with expanded, concatenated, white-space-normalised values, persons split per role, preamble list), identifiers spelled as written',
+    'C01_faithful_nonvacuous': 'the hypotheses hold for a two-entry document using every construct (both delimiters, macro#literal#month, quoted / braced / bare literals, author field, @string, @preamble, @comment, junk, CR/LF/CRLF/TAB, case masks)',
+    'C01_faithful_plain': 'without case masks on entry types and field names the result is exactly the denotation of the document itself',
+    'C01_layout_independent': 'two well-formed layouts of one document give equal databases when they spell types and field names alike, and in general databases equal up to the stored spelling of types / field names / role names; each agrees in that sense with the denotation of the document',
+    'C01_junk_independent': 'documents that differ only in junk text and @comment blocks give the same database',
+    'C01_identifiers': 'keys, entry types and field / role names are stored with the spelling written (closed form of the result); macro lookup, duplicate-field and repeated-key detection are case-insensitive',
+    'C01_months_predefined': 'jan ... dec (any case) expand to the regenerated month table without any @string',
+}
 RULE = ('abstract documents (entries, @string, @preamble, @comment, junk; values = literal / macro pieces) rendered under layouts: '
         'small documents x every global layout combination {2 delimiters x 3 literal spellings x 4 case masks x 8 white-space kinds '
         'incl. CR/CRLF x trailing comma}; larger random documents with per-site random layout; non-trivial = document with an entry '
@@ -200,5 +214,19 @@ def gen_cases(tier, rng, info):
     return cases
 
 
-LEVEL_TEXT = 'filled when the proofs are registered'
-LEVEL_NOTE = ''
+LEVEL_TEXT = ('Machine-checked printer/parser proof (Lean 4) about the executable model of pybtex/database/input/bibtex.py + scanner + '
+              'normalize_whitespace + add_entry, for ALL abstract documents and ALL layouts satisfying the explicit decidable predicate WF: '
+              'parse_string(render(d, L)) raises nothing, reports nothing and returns exactly denote(written(d, L)) (C01_faithful); hence the result '
+              'is independent of delimiter pair, literal spelling (braced / quoted / bare number), "#" split points and white space, case of '
+              'macro names and of the string/preamble/comment keywords, amount and kind of white space and line ends (any of the 29 code points, '
+              'CR / LF / CRLF), trailing commas, junk text and @comment blocks; case masks on entry types and field names change only the stored '
+              'spelling (C01_layout_independent, C01_junk_independent, C01_identifiers); month macros are predefined (C01_months_predefined). '
+              'Staged lemmas (value, field, entry, @string, @preamble, @comment) are published as theorems of their own. The same documents and '
+              'layouts are generated by the harness and the implementation is compared with the model and with the harness-side denotation.')
+LEVEL_NOTE = ('Trusted: Lean kernel; axioms propext/Classical.choice/Quot.sound only; the hand-written model (Model/BibParse.lean) corresponds to the '
+              'code as far as the differential check explores; Spec/Bib.lean (ADoc, Layout, render, denote, WF) is what a reader has to agree with; '
+              'person splitting inside denote uses splitNameList / mkPerson (C12 / C04 models) and normalizeWs is shared with the model; WF excludes '
+              'person names with more than two top-level commas (reported by the reader), undefined macros, empty values, duplicate field names / '
+              'keys up to case (their case-insensitive detection is part of C01_identifiers), keys that the key pattern would not scan, literals '
+              'with unbalanced braces or nesting > 100, and non-NAME identifiers (the regenerated NAME tables; ASCII case mapping). Line numbers '
+              'are not part of the statements (no error is reported on well-formed input; see C10). wanted_entries = None.')
